@@ -36,7 +36,7 @@ strips one leading "/" and takes the copy branches only for a non-empty rest. -/
 theorem no_panic_copySourceOfRequest (hdr : Bytes) : noPanic (copySourceOfRequest hdr) = true :=
   Model.Robust.no_panic_copySourceOfRequest hdr
 
-/-- backend.ParseObjectTags (x-amz-tagging): every string -/
+/-- backend.ParseObjectTags (x-amz-tagging, percent-decoded keys and values): every string -/
 theorem no_panic_parseObjectTags (t : Bytes) : noPanic (parseObjectTags t) = true :=
   Model.Robust.no_panic_parseObjectTags t
 
@@ -345,6 +345,9 @@ theorem C20_fixed : C20_full true :=
 example : parseCopySource [47, 98, 47, 107, 63, 118, 101, 114, 115, 105, 111, 110, 73, 100, 61, 118] = .ok (.ok [98] [107] [118]) := by decide
 -- "a=b&c=d"
 example : parseObjectTags [97, 61, 98, 38, 99, 61, 100] = .ok (some [([97], [98]), ([99], [100])]) := by decide
+-- "t=a%20b+c" is stored decoded: "a b c"; "t=%zz" is an invalid tag
+example : parseObjectTags [116, 61, 97, 37, 50, 48, 98, 43, 99] = .ok (some [([116], [97, 32, 98, 32, 99])]) := by decide
+example : parseObjectTags [116, 61, 37, 122, 122] = .ok none := by decide
 -- "bytes=1-2" of a 10 byte object
 example : parseCopySourceRange 10 [98, 121, 116, 101, 115, 61, 49, 45, 50] = .ok (.ok 1 2) := by decide
 -- "20060102T150405Z" parses, "20060102T150405" does not, a fractional second is accepted
